@@ -169,14 +169,17 @@ fn convert_absolute_token_to_lsp_token<'a>(
 }
 
 pub fn delta_line_delta_start(text: &str) -> (u32, u32) {
-    let mut last_line_break_index = 0;
     let mut line_break_count = 0;
-    for (index, char) in text.chars().enumerate() {
+    // LSP columns are measured in UTF-16 code units since the last line break
+    let mut utf16_units_since_last_line_break = 0;
+    for char in text.chars() {
         if char == '\n' {
             line_break_count += 1;
-            last_line_break_index = index as u32 + 1;
+            utf16_units_since_last_line_break = 0;
+        } else {
+            utf16_units_since_last_line_break += char.len_utf16() as u32;
         }
     }
 
-    (line_break_count, text.len() as u32 - last_line_break_index)
+    (line_break_count, utf16_units_since_last_line_break)
 }
